@@ -383,6 +383,14 @@ def check_C13(tier, seed):
         c.driver_phase(_alloc_runs(tier, seed + 7))
         _tw_mc(c, tier, [("TimeWarpMC_m1.tla", "TimeWarpMC_m1_g1.cfg", "m1 + abstract GVT + fossil collection (fossil then rollback to the first uncommitted position)", 1)] +
                ([("TimeWarpMC_m1.tla", "TimeWarpMC_m1_g2.cfg", "m1 + abstract GVT + fossil collection", 2)] if tier == "thorough" else []))
+        # m4: a collection that finds nothing below the GVT in the history kept by the previous one, then a rollback to the frontier
+        c.mc_phase("TimeWarpMC_m4.tla", "TimeWarpMC_m4_g2.cfg", MC_NOTE % ("m4 (quiet LP; two GVT values: the second collection finds nothing new) + fossil collection", 1),
+                   workers=8, timeout=1500, heap="8g")
+        c.probe_phase("TimeWarpMC_m4.tla", "TimeWarpMC_m4_g2.cfg",
+                      [("Probe_NoEmptyFossilAfterCollection", "fossil_lp_collect runs on a re-based, non-empty history with nothing below the GVT"),
+                       ("Probe_NoRollbackToFrontierAfterCollection", "a rollback to the very beginning of a re-based history (needs the checkpoint kept at the frontier)")],
+                      workers=4, timeout=600, heap="4g")
+        c.micro_phase("m4", 40 if tier == "quick" else 300)
         em = lambda r: {"ckpt": r.choice([1, 2, 3, 4, 6]), "batch": 1, "period": 0, "switch": r.choice(["1/8", "1/24", "1/96"]),
                         "threads": r.choice([2, 3, 4])}
         c.run(_models(tier, seed, ["mixed", "fanout", "zerodelay"], 6, 30, "small", "medium"), 5 if tier == "quick" else 14, emphasis=em)
